@@ -27,7 +27,9 @@ True_  == [kind |-> "true", groups |-> <<>>]
 
 RECURSIVE RefPre(_, _), RefPreAt(_, _), InhPre(_, _, _)
 \* effective precondition of member name as seen on class k
-RefPre(k, name) == LET p == ProviderOf(k, name) IN IF p = 0 THEN Absent ELSE RefPreAt(p, name)
+\* (a member declared with kind "none" is an accessor which the re-declared property does not have: it shadows the bases')
+NoSuch(p, name) == p = 0 \/ MemberDecl(p, name).kind = "none"
+RefPre(k, name) == LET p == ProviderOf(k, name) IN IF NoSuch(p, name) THEN Absent ELSE RefPreAt(p, name)
 \* ... of the definition of name in class k (k defines name)
 InhPre(bases, name, acc) ==
   IF bases = <<>> THEN acc
@@ -43,12 +45,12 @@ RefPreAt(k, name) ==
      ELSE [kind |-> "dnf", groups |-> inh.groups \o (IF own = <<>> THEN <<>> ELSE <<own>>)]
 
 RECURSIVE RefPost(_, _), RefPostAt(_, _), InhPost(_, _)
-RefPost(k, name) == LET p == ProviderOf(k, name) IN IF p = 0 THEN <<>> ELSE RefPostAt(p, name)
+RefPost(k, name) == LET p == ProviderOf(k, name) IN IF NoSuch(p, name) THEN <<>> ELSE RefPostAt(p, name)
 InhPost(bases, name) == IF bases = <<>> THEN <<>> ELSE RefPost(Head(bases), name) \o InhPost(Tail(bases), name)
 RefPostAt(k, name) == (IF IsCtor(name) THEN <<>> ELSE InhPost(Stmt(k).bases, name)) \o OwnPost(k, name)
 
 RECURSIVE RefSnap(_, _), RefSnapAt(_, _), InhSnap(_, _)
-RefSnap(k, name) == LET p == ProviderOf(k, name) IN IF p = 0 THEN <<>> ELSE RefSnapAt(p, name)
+RefSnap(k, name) == LET p == ProviderOf(k, name) IN IF NoSuch(p, name) THEN <<>> ELSE RefSnapAt(p, name)
 InhSnap(bases, name) == IF bases = <<>> THEN <<>> ELSE RefSnap(Head(bases), name) \o InhSnap(Tail(bases), name)
 RefSnapAt(k, name) == (IF IsCtor(name) THEN <<>> ELSE InhSnap(Stmt(k).bases, name)) \o OwnSnap(k, name)
 
